@@ -5,7 +5,8 @@ What `internal/config/parser` does, as small total functions (core Lean only, th
 
 * `Val` – the untyped configuration tree the loader works on (`map[string]any`, `[]any`, scalars, `nil`).
 * `merge`, `mergeFields`, `mergeElems` – `merge.go`: `merge`, `mergeMaps`, `mergeSlices`
-  (maps key by key, slices index by index, `nil` never overrides, scalars: the source wins).
+  (maps key by key, slices index by index, nothing (`Val.null`, a hole) never overrides, scalars – the nil scalar
+  `Val.nil` included – : the source wins).
 * `normalizeKey`, `parseName` – `env.go`: the key normalisation of `koanfFromEnv` (`__` ↦ `_`, `_` ↦ `.`, lower case)
   and the split into map keys and list indices done by `convert`.
 * `single` – the tree one environment variable stands for (`convert`: a slice of `pos+1` entries with the value at
@@ -13,6 +14,8 @@ What `internal/config/parser` does, as small total functions (core Lean only, th
 * `envTree` – all variables merged (the loader goes through Go maps, i.e. an arbitrary order; the model folds over the
   enumeration order and `Props/C20.lean` proves that the order is irrelevant).
 * `load` – `configloader.go` `Load`: defaults, then the file, then the environment, each merged with `merge`.
+* `nullText`, `Val.nil`, `holeVar`, `envVal` – a value that is **defined to be nil** (an empty variable, `null`, `~`; a map
+  entry `k: nil` in Go) as opposed to nothing at all (`Val.null`: absent key, unfilled list position).
 
 Typed decoding (mapstructure) is not modelled: the observable is the merged tree handed to the decoder.
 The model describes the loader with the fixes `fixes/C20-1.patch` applied (sibling list variables are merged instead of
@@ -233,7 +236,36 @@ def pathsConsistent : List Path → Bool
 /-- an environment as the process sees it: variable name (prefix removed) and scalar value (after YAML typing) -/
 abbrev Env := List (List Char × String)
 
-def Env.entries (env : Env) : List (Path × Val) := env.map fun e => (parseName e.1, .atom e.2)
+/-! ### nil values
+
+`env.go toRealType` lets YAML read the text of a variable: the empty text, blanks, `null`, `Null`, `NULL`, `~` (and a
+text YAML cannot read at all) become Go's `nil`. Such a variable still *defines* its leaf. In a Go map the entry
+`k: nil` overrides a scalar (`merge`: "any other (primitive) type: overriding", `return src`) – the value of the file is
+gone and the typed decoding later leaves the target's default in place. The model keeps such a defined-to-be-nil value
+apart from "nothing here" (`Val.null`): it is the scalar `Val.nil` whose canonical text is `nullText`.
+Inside a Go slice there is no such difference: `convert` pads with `nil` and `mergeSlices` never lets a `nil` entry
+override (`else if v != nil`), so a nil value addressed to a list position is a hole like the padding (`envVal`). -/
+
+/-- the canonical (JSON) text of the nil scalar -/
+def nullText : String := "null"
+
+/-- a value that is defined to be nil (Go: the map entry `k: nil`) -/
+def Val.nil : Val := .atom nullText
+
+/-- does the path end in a list index (is the place a slice entry)? -/
+def endsInIdx : Path → Bool
+  | [] => false
+  | [.idx _] => true
+  | [.key _] => false
+  | _ :: s :: r => endsInIdx (s :: r)
+
+/-- a variable with a nil value that addresses a list position: indistinguishable from the padding of `convert` -/
+def holeVar (p : Path) (a : String) : Bool := a == nullText && endsInIdx p
+
+/-- what the value `a` of a variable addressing `p` contributes to the tree -/
+def envVal (p : Path) (a : String) : Val := if holeVar p a then .null else .atom a
+
+def Env.entries (env : Env) : List (Path × Val) := env.map fun e => (parseName e.1, envVal (parseName e.1) e.2)
 
 def Env.consistent (env : Env) : Bool := pathsConsistent (env.map fun e => parseName e.1)
 
